@@ -1,4 +1,5 @@
 import PyYetiVerif.Lemmas.Findap
+import PyYetiVerif.Lemmas.FindapFix
 import PyYetiVerif.Lemmas.Binify
 import PyYetiVerif.Lemmas.BinifyAuto
 import PyYetiVerif.Lemmas.Fde
@@ -7,21 +8,16 @@ import PyYetiVerif.Lemmas.Fde
 
 Property theorems only (helper lemmas live in `Lemmas/`).  The models are tied to
 `cyclecount.py`, `locate.py`, `fdepsd.py` by the exact correspondence check
-(harness/props/c10.py); `findapSeq` models the numba-only variant, which is source text in this
+(harness/props/c10.py); `findapSeqFix` models the numba-only variant, which is source text in this
 sandbox (compared through a translator-made transcription).
 
-Intended full-strength statement for **both** variants of `findap`: the first sample is selected,
-the selected samples strictly alternate (`Alt`), every sample is within `stol` of a selected
-sample from above and from below (global extremes within the tolerance), and the two variants
-select the same set.  What is true of the faithful models:
-
-* numba variant: first sample, alternation — proved in full; extremes — proved within `2·stol`
-  (`seq_extremes_within_two_stol`); within `stol` it is false (`seq_end_rule_counterexample`,
-  finding F22) and the variant can fail outright (`seq_unbound_counterexample`, finding F14);
-* default variant: first sample — in full; alternation and extremes within `stol` —
-  `…_partial` under `NoSubTolDrift`; the hypothesis is necessary
-  (`default_drift_counterexample`, finding F4);
-* the variants differ even without drift (`variants_differ_counterexample`, finding F23).
+`findap` (both variants, the code as repaired by f8f6e40 and 4b29dcf; models
+`Findap.findapDefFix`, `Findap.findapSeqFix`), FULL STRENGTH, every signal and every tolerance:
+the first sample is selected, the selected samples strictly alternate (`Alt`), every sample — in
+particular the global maximum and minimum — is within `stol` of a selected sample from above and
+from below, the numba variant never fails on a non-empty signal, and the two variants select the
+same set.  What was true of the text before the repairs (findings F4, F14, F22, F23) is recorded
+in `Props/C10PreFix.lean`, outside the property claims.
 -/
 namespace PyYetiVerif.C10
 open PyYetiVerif.Findap PyYetiVerif.Binify PyYetiVerif.Fde
@@ -29,220 +25,120 @@ open PyYetiVerif.Findap PyYetiVerif.Binify PyYetiVerif.Fde
 section findap
 variable {α : Type} [Field α] [LinearOrder α] [IsStrictOrderedRing α]
 
-/-! ### numba (sequential) variant -/
-
-theorem seqSt_cases (st : α) (h0 : 0 ≤ st) (y : List α) (l : List (Nat × α))
-    (h : findapSeqSt st y = .sel l) :
-    (∃ a r, y = a :: r ∧ l.head? = some (0, a)) ∧ Alt (l.map (·.2)) ∧
-      ∀ v ∈ y, (∃ s ∈ l.map (·.2), v ≤ s + 2 * st) ∧ (∃ s ∈ l.map (·.2), s ≤ v + 2 * st) := by
-  match y, h with
-  | [], h => simp [findapSeqSt] at h
-  | [a], h =>
-      simp only [findapSeqSt, SeqRes.sel.injEq] at h; subst h
-      refine ⟨⟨a, [], rfl, rfl⟩, by simp [Alt, AltFrom], ?_⟩
-      intro v hv; simp at hv; subst hv
-      exact ⟨⟨v, by simp, by linarith⟩, ⟨v, by simp, by linarith⟩⟩
-  | [a, b], h =>
-      simp only [findapSeqSt] at h
-      split at h
-      · simp only [SeqRes.sel.injEq] at h; subst h
-        rename_i hab
-        refine ⟨⟨a, [b], rfl, rfl⟩, ?_, ?_⟩
-        · rcases hab with hab | hab
-          · left; simp [AltFrom, hab]
-          · right; simp [AltFrom, hab]
-        · intro v hv
-          exact ⟨⟨v, by simpa using hv, by linarith⟩, ⟨v, by simpa using hv, by linarith⟩⟩
-      · simp only [SeqRes.sel.injEq] at h; subst h
-        rename_i hab
-        have hab' : a = b := le_antisymm (not_lt.mp fun h => hab (Or.inr h)) (not_lt.mp fun h => hab (Or.inl h))
-        refine ⟨⟨a, [b], rfl, rfl⟩, by simp [Alt, AltFrom], ?_⟩
-        intro v hv
-        have : v = a := by rcases List.mem_cons.mp hv with h | h <;> simp_all
-        subst this
-        exact ⟨⟨v, by simp, by linarith⟩, ⟨v, by simp, by linarith⟩⟩
-  | a :: b :: c :: r, h =>
-      simp only [findapSeqSt] at h
-      split at h
-      · rename_i hs
-        simp only [SeqRes.sel.injEq] at h; subst h
-        refine ⟨⟨a, _, rfl, rfl⟩, by simp [Alt, AltFrom], ?_⟩
-        intro v hv
-        have hva : |v - a| ≤ st := by
-          rcases List.mem_cons.mp hv with rfl | hv
-          · simpa using h0
-          · exact skipInit_none st a _ 1 hs v hv
-        have := abs_le.mp hva
-        exact ⟨⟨a, by simp, by linarith⟩, ⟨a, by simp, by linarith⟩⟩
-      · cases h
-      · rename_i cur j x r' hs
-        simp only [SeqRes.sel.injEq] at h; subst h
-        obtain ⟨pre, hpre, hclose, hsig⟩ := skipInit_some st a _ 1 cur j (x :: r') hs
-        have hm : (decide (a < cur) = true → a + st < cur) := by
-          intro hd
-          have : a < cur := by simpa using hd
-          rw [abs_of_pos (by linarith)] at hsig; linarith
-        have hv' : (decide (a < cur) = false → cur + st < a) := by
-          intro hd
-          have hle : cur ≤ a := not_lt.mp (by simpa using hd)
-          have hne : cur ≠ a := by
-            rintro rfl; simp at hsig; linarith
-          rw [abs_of_neg (by have := lt_of_le_of_ne hle hne; linarith)] at hsig; linarith
-        have hnn : |cur - cur| ≤ st := by simpa using h0
-        refine ⟨⟨a, _, rfl, rfl⟩, ?_, ?_⟩
-        · have := loop_alt st h0 (x :: r') (decide (a < cur)) cur j cur cur (j + 1) a hm hv' hnn
-          simp only [List.map_cons]
-          by_cases hd : a < cur
-          · left; simpa [hd] using this
-          · right; simpa [hd] using this
-        · obtain ⟨⟨su, hsu, hbu⟩, hau⟩ :=
-            loop_upper st h0 (x :: r') (decide (a < cur)) cur j cur cur (j + 1) a hm hv' hnn
-          obtain ⟨⟨sl, hsl, hbl⟩, hal⟩ :=
-            loop_lower st h0 (x :: r') (decide (a < cur)) cur j cur cur (j + 1) a hm hv' hnn
-          simp only [List.map_cons]
-          intro v hv
-          rcases List.mem_cons.mp hv with rfl | hv
-          · exact ⟨⟨v, by simp, by linarith⟩, ⟨v, by simp, by linarith⟩⟩
-          · rw [hpre] at hv
-            rcases List.mem_append.mp hv with hv | hv
-            · have := abs_le.mp (hclose v hv)
-              exact ⟨⟨a, by simp, by linarith⟩, ⟨a, by simp, by linarith⟩⟩
-            · rcases List.mem_cons.mp hv with rfl | hv
-              · exact ⟨⟨su, hsu, by linarith⟩, ⟨sl, hsl, by linarith⟩⟩
-              · exact ⟨hau v hv, hal v hv⟩
-
-/-- the first sample is always selected (numba variant) -/
-theorem seq_first_selected (tol : α) (y : List α) (l : List (Nat × α))
-    (h : findapSeq tol y = .sel l) : ∃ a r, y = a :: r ∧ l.head? = some (0, a) :=
-  (seqSt_cases _ (stol_nonneg tol y) y l h).1
-
-/-- the selected samples strictly alternate between maxima and minima (numba variant) -/
-theorem seq_alternates (tol : α) (y : List α) (l : List (Nat × α))
-    (h : findapSeq tol y = .sel l) : Alt (l.map (·.2)) :=
-  (seqSt_cases _ (stol_nonneg tol y) y l h).2.1
-
-/-- every sample — in particular the global maximum and minimum — is within `2·stol` of a
-selected sample, from above and from below (numba variant).  With `stol` in place of `2·stol`
-the statement is false: `seq_end_rule_counterexample`. -/
-theorem seq_extremes_within_two_stol (tol : α) (y : List α) (l : List (Nat × α))
-    (h : findapSeq tol y = .sel l) :
-    ∀ v ∈ y, (∃ s ∈ l.map (·.2), v ≤ s + 2 * stol tol y) ∧ (∃ s ∈ l.map (·.2), s ≤ v + 2 * stol tol y) :=
-  (seqSt_cases _ (stol_nonneg tol y) y l h).2.2
-
 /-! ### default (vectorised) variant -/
 
 /-- the first sample is always selected (default variant) -/
 theorem default_first_selected (tol : α) (y : List α) (m : List Bool)
-    (h : findapDef tol y = some m) : m.head? = some true := by
-  unfold findapDef at h
-  match y, h with
-  | [], h => simp [findapDefSt] at h
-  | [a], h => simp only [findapDefSt, Option.some.injEq] at h; subst h; rfl
-  | a :: b :: r, h =>
-      simp only [findapDefSt, Option.some.injEq] at h; subst h
-      have : ∀ l : List α, l ≠ [] → (pvOf l).head? = some true := by
-        intro l hl
-        match l, hl with
-        | [_], _ => rfl
-        | [_, _], _ => rfl
-        | _ :: _ :: _ :: _, _ => rfl
-      generalize hp : pvOf (select (true :: uniqMask (stol tol (a :: b :: r)) a (b :: r)) (a :: b :: r)) = pv
-      have := this (select (true :: uniqMask (stol tol (a :: b :: r)) a (b :: r)) (a :: b :: r)) (by simp [select])
-      rw [hp] at this
-      cases pv with
-      | nil => simp at this
-      | cons p pv' => simp only [List.head?_cons, Option.some.injEq] at this; subst this; simp [expand]
+    (h : findapDefFix tol y = some m) : m.head? = some true :=
+  (defFixSt_spec _ (stol_nonneg tol y) y m h).1
 
-theorem defaultSt_partial (st : α) (h0 : 0 ≤ st) (y : List α) (m : List Bool)
-    (h : findapDefSt st y = some m) (hd : NoSubTolDrift st y) :
-    Alt ((selOf m y 0).map (·.2)) ∧
-      ∀ v ∈ y, (∃ s ∈ (selOf m y 0).map (·.2), v ≤ s + st) ∧ (∃ s ∈ (selOf m y 0).map (·.2), s ≤ v + st) := by
-  match y, h with
-  | [], h => simp [findapDefSt] at h
-  | [a], h =>
-      simp only [findapDefSt, Option.some.injEq] at h; subst h
-      refine ⟨by simp [selOf, Alt, AltFrom], ?_⟩
-      intro v hv; simp at hv; subst hv
-      exact ⟨⟨v, by simp [selOf], by linarith⟩, ⟨v, by simp [selOf], by linarith⟩⟩
-  | a :: b :: r, h =>
-      simp only [findapDefSt, Option.some.injEq] at h; subst h
-      have hlen : (true :: uniqMask st a (b :: r)).length = (a :: b :: r).length := by
-        simp [uniqMask_length]
-      rw [selOf_expand _ _ _ 0 hlen (pvOf_length _)]
-      obtain ⟨hdist, hclose⟩ := heads_spec st (b :: r) a a (by simpa using h0) hd
-      have hsel : select (true :: uniqMask st a (b :: r)) (a :: b :: r)
-          = a :: select (uniqMask st a (b :: r)) (b :: r) := rfl
-      rw [hsel]
-      obtain ⟨h1, h2, h3⟩ := pvOf_spec _ hdist
-      refine ⟨h1, ?_⟩
-      intro v hv
-      have : ∃ w ∈ a :: select (uniqMask st a (b :: r)) (b :: r), |v - w| ≤ st := by
-        rcases List.mem_cons.mp hv with rfl | hv
-        · exact ⟨v, by simp, by simpa using h0⟩
-        · exact hclose v hv
-      obtain ⟨w, hw, hvw⟩ := this
-      have := abs_le.mp hvw
-      obtain ⟨s, hs, hws⟩ := h2 w hw
-      obtain ⟨s', hs', hws'⟩ := h3 w hw
-      exact ⟨⟨s, hs, by linarith⟩, ⟨s', hs', by linarith⟩⟩
+/-- the samples selected by the default variant strictly alternate between maxima and minima —
+every signal, every tolerance. -/
+theorem default_alternates (tol : α) (y : List α) (m : List Bool)
+    (h : findapDefFix tol y = some m) : Alt ((selOf m y 0).map (·.2)) :=
+  (defFixSt_spec _ (stol_nonneg tol y) y m h).2.1
 
-/-- PARTIAL (finding F4): without sub-tolerance drift the samples selected by the default
-variant strictly alternate.  Full strength (no hypothesis) is false:
-`default_drift_counterexample`. -/
-theorem default_alternates_partial (tol : α) (y : List α) (m : List Bool)
-    (h : findapDef tol y = some m) (hd : NoSubTolDrift (stol tol y) y) :
-    Alt ((selOf m y 0).map (·.2)) :=
-  (defaultSt_partial _ (stol_nonneg tol y) y m h hd).1
-
-/-- PARTIAL (finding F4): without sub-tolerance drift every sample — in particular the global
-maximum and minimum — is within `stol` of a sample selected by the default variant. -/
-theorem default_extremes_partial (tol : α) (y : List α) (m : List Bool)
-    (h : findapDef tol y = some m) (hd : NoSubTolDrift (stol tol y) y) :
+/-- every sample — in particular the global maximum and minimum — is within `stol` of a sample
+selected by the default variant, from above and from below. -/
+theorem default_extremes (tol : α) (y : List α) (m : List Bool)
+    (h : findapDefFix tol y = some m) :
     ∀ v ∈ y, (∃ s ∈ (selOf m y 0).map (·.2), v ≤ s + stol tol y) ∧
       (∃ s ∈ (selOf m y 0).map (·.2), s ≤ v + stol tol y) :=
-  (defaultSt_partial _ (stol_nonneg tol y) y m h hd).2
+  (defFixSt_spec _ (stol_nonneg tol y) y m h).2.2
+
+/-- the default variant returns a mask for every non-empty signal (an empty one: `ValueError`) -/
+theorem default_total (tol : α) (a : α) (r : List α) : ∃ m, findapDefFix tol (a :: r) = some m := by
+  unfold findapDefFix
+  cases r with
+  | nil => exact ⟨_, rfl⟩
+  | cons b r' => exact ⟨_, rfl⟩
+
+/-- where `_unique_kept`'s vectorised test passes, the kept samples are exactly those of
+`locate.find_unique` (comparison with the previous sample): the sequential scan changes the mask
+only on the drift and return families. -/
+theorem default_fast_path_is_find_unique (st a : α) (r : List α) (hf : fastOK st a r = true) :
+    fixMask st a r = uniqMask st a r ∧ hystMask st a r = uniqMask st a r := by
+  have := fixMask_eq st a r
+  unfold fixMask at this ⊢
+  rw [if_pos hf] at this ⊢
+  exact ⟨rfl, this.symm⟩
+
+/-! ### both variants -/
+
+/-- **the two variants select the same samples**, for every signal and every tolerance (sizes 1
+and 2 and `tol ≥ 1` included). -/
+theorem variants_agree (tol : α) (y : List α) :
+    findapSeqFix tol y = (findapDefFix tol y).map (fun m => selOf m y 0) :=
+  fixSt_agree _ (stol_nonneg tol y) y
+
+/-! ### numba (sequential) variant -/
+
+/-- the numba variant returns a selection for every non-empty signal: `nxt` is never read
+unbound -/
+theorem seq_total (tol : α) (a : α) (r : List α) : ∃ l, findapSeqFix tol (a :: r) = some l := by
+  obtain ⟨m, hm⟩ := default_total tol a r
+  exact ⟨_, by rw [variants_agree, hm]; rfl⟩
+
+theorem seq_cases (tol : α) (y : List α) (l : List (Nat × α)) (h : findapSeqFix tol y = some l) :
+    ∃ m, findapDefFix tol y = some m ∧ l = selOf m y 0 := by
+  rw [variants_agree] at h
+  cases hd : findapDefFix tol y with
+  | none => rw [hd] at h; cases h
+  | some m => rw [hd] at h; simp only [Option.map_some, Option.some.injEq] at h; exact ⟨m, rfl, h.symm⟩
+
+/-- the first sample is always selected (numba variant) -/
+theorem seq_first_selected (tol : α) (y : List α) (l : List (Nat × α))
+    (h : findapSeqFix tol y = some l) : ∃ a r, y = a :: r ∧ l.head? = some (0, a) := by
+  obtain ⟨m, hm, rfl⟩ := seq_cases tol y l h
+  have h1 := default_first_selected tol y m hm
+  cases y with
+  | nil => simp [findapDefFix, findapDefFixSt] at hm
+  | cons a r =>
+      refine ⟨a, r, rfl, ?_⟩
+      cases m with
+      | nil => simp at h1
+      | cons b m' =>
+          simp only [List.head?_cons, Option.some.injEq] at h1
+          subst h1
+          rfl
+
+/-- the selected samples strictly alternate between maxima and minima (numba variant) -/
+theorem seq_alternates (tol : α) (y : List α) (l : List (Nat × α))
+    (h : findapSeqFix tol y = some l) : Alt (l.map (·.2)) := by
+  obtain ⟨m, hm, rfl⟩ := seq_cases tol y l h
+  exact default_alternates tol y m hm
+
+/-- every sample — in particular the global maximum and minimum — is within `stol` of a selected
+sample, from above and from below (numba variant). -/
+theorem seq_extremes (tol : α) (y : List α) (l : List (Nat × α))
+    (h : findapSeqFix tol y = some l) :
+    ∀ v ∈ y, (∃ s ∈ l.map (·.2), v ≤ s + stol tol y) ∧ (∃ s ∈ l.map (·.2), s ≤ v + stol tol y) := by
+  obtain ⟨m, hm, rfl⟩ := seq_cases tol y l h
+  exact default_extremes tol y m hm
 
 end findap
 
-/-! ### counterexamples (concrete rational signals) -/
+/-! ### regression: the inputs of the repaired findings F4, F14, F22, F23 -/
 
-/-- F4: `[0, 1, 2, 0]`, `tol = 0.51` (`stol = 1.02`): the run `0, 1, 2` drifts by `2 > stol`;
-the default variant selects the values `[0, 0]` — no alternation, and the maximum `2` is missed
-by more than `stol`.  So `NoSubTolDrift` cannot be dropped from the `…_partial` theorems. -/
-theorem default_drift_counterexample :
-    let y : List Rat := [0, 1, 2, 0]
-    let tol : Rat := 51 / 100
-    findapDef tol y = some [true, false, false, true] ∧ stol tol y = 51 / 50 ∧
-      ¬ NoSubTolDrift (stol tol y) y ∧ ¬ Alt ([0, 0] : List Rat) ∧ (0 : Rat) + 51 / 50 < 2 := by
-  refine ⟨by decide +kernel, by decide +kernel, by decide +kernel, ?_, by decide +kernel⟩
-  simp [Alt, AltFrom]
-
-/-- F22: numba variant on `[-100, 0, 4, -4]`, `tol = 0.05` (`stol = 5`, no drift): the end rule
-marks the last sample instead of the held one; the selected values are `-100, -4` and the
-maximum `4` is missed by `8 > stol`. -/
-theorem seq_end_rule_counterexample :
-    let y : List Rat := [-100, 0, 4, -4]
-    let tol : Rat := 1 / 20
-    findapSeq tol y = .sel [(0, -100), (3, -4)] ∧ stol tol y = 5 ∧
-      NoSubTolDrift (stol tol y) y ∧ (-4 : Rat) + 5 < 4 := by
-  refine ⟨by decide +kernel, by decide +kernel, by decide +kernel, by decide +kernel⟩
-
-/-- F14: numba variant on `[1, 1, 4]`: the first significant change is the last sample, the
-`for` loop does not run and `nxt` is read unbound. -/
-theorem seq_unbound_counterexample :
-    findapSeq (1 / 1000000 : Rat) [1, 1, 4] = .unbound ∧
-      findapDef (1 / 1000000 : Rat) [1, 1, 4] = some [true, false, true] := by
+/-- F4's `[0, 1, 2, 0]`, `tol = 0.51` (`stol = 1.02`; before f8f6e40 the values `[0, 0]` were
+selected): both variants keep `0, 2, 0`. -/
+theorem fixed_F4_example :
+    findapDefFix (51 / 100 : Rat) [0, 1, 2, 0] = some [true, false, true, true] ∧
+      findapSeqFix (51 / 100 : Rat) [0, 1, 2, 0] = some [(0, 0), (2, 2), (3, 0)] := by
   refine ⟨by decide +kernel, by decide +kernel⟩
 
-/-- F23: `[0, 80, 83, 78, 160]`, `tol = 0.05` (`stol = 4.1`, no drift): the step `83 → 78`
-exceeds `stol` but lands within `stol` of the run head `80`; the default variant selects
-indices `0, 1, 3, 4`, the numba variant `0, 4`. -/
-theorem variants_differ_counterexample :
-    let y : List Rat := [0, 80, 83, 78, 160]
-    let tol : Rat := 1 / 20
-    NoSubTolDrift (stol tol y) y ∧ findapDef tol y = some [true, true, false, true, true] ∧
-      findapSeq tol y = .sel [(0, 0), (4, 160)] := by
-  refine ⟨by decide +kernel, by decide +kernel, by decide +kernel⟩
+/-- F14's `[1, 1, 4]` (before 4b29dcf: `nxt` unbound), F22's `[-100, 0, 4, -4]` (`tol = 0.05`,
+`stol = 5`: the held candidate `0` is selected, the maximum `4` is missed by `4 ≤ stol`; before:
+missed by `8`), F23's `[0, 80, 83, 78, 160]` (before: the variants differed). -/
+theorem fixed_F14_F22_F23_examples :
+    findapSeqFix (1 / 1000000 : Rat) [1, 1, 4] = some [(0, 1), (2, 4)] ∧
+      findapDefFix (1 / 1000000 : Rat) [1, 1, 4] = some [true, false, true] ∧
+      findapSeqFix (1 / 20 : Rat) [-100, 0, 4, -4] = some [(0, -100), (1, 0)] ∧
+      findapDefFix (1 / 20 : Rat) [-100, 0, 4, -4] = some [true, true, false, false] ∧
+      findapSeqFix (1 / 20 : Rat) [0, 80, 83, 78, 160] = some [(0, 0), (4, 160)] ∧
+      findapDefFix (1 / 20 : Rat) [0, 80, 83, 78, 160] = some [true, false, false, false, true] := by
+  refine ⟨by decide +kernel, by decide +kernel, by decide +kernel, by decide +kernel,
+    by decide +kernel, by decide +kernel⟩
 
 /-! ### binning -/
 
@@ -424,12 +320,13 @@ end fde
 
 /-! ### non-vacuity -/
 
-example : findapDef (1 / 1000000 : Rat) [1, 2, 3, 4, 4, -2, -2, 0]
+example : findapDefFix (1 / 1000000 : Rat) [1, 2, 3, 4, 4, -2, -2, 0]
     = some [true, false, false, true, false, true, false, true] := by decide +kernel
-example : NoSubTolDrift (stol (1 / 1000000 : Rat) [1, 2, 3, 4, 4, -2, -2, 0]) [1, 2, 3, 4, 4, -2, -2, 0] := by
+example : findapSeqFix (1 / 1000000 : Rat) [1, 2, 3, 4, 4, -2, -2, 0]
+    = some [(0, 1), (3, 4), (5, -2), (7, 0)] := by decide +kernel
+example : fastOK (stol (1 / 1000000 : Rat) [1, 2, 3, 4, 4, -2, -2, 0]) 1 [2, 3, 4, 4, -2, -2, 0] = true := by
   decide +kernel
-example : findapSeq (1 / 1000000 : Rat) [1, 2, 3, 4, 4, -2, -2, 0]
-    = .sel [(0, 1), (3, 4), (5, -2), (7, 0)] := by decide +kernel
+example : fastOK (stol (51 / 100 : Rat) [0, 1, 2, 0]) 0 [1, 2, 0] = false := by decide +kernel
 example : binifyCore true true ([1, 2, 3, 4] : List Rat) [0, 1, 2] [(2, 1, (1 : Rat) / 2), (3 / 2, 2, 1)]
     = some [[1 / 2, 0, 0], [1, 0, 0]] := by decide +kernel
 example : Covered true ([1, 2, 3, 4] : List Rat) 2 := ⟨0, 1, 2, rfl, rfl, by decide⟩
